@@ -390,8 +390,8 @@ func runC09(ctx *core.Ctx) {
 		return feCase{Op: op, A: elemIn{latticeAt(kB, j/nB)}, B: elemIn{latticeAt(kB, j%nB)}}
 	})
 	// forms of F
-	forms := fieldForms(ctx.Quick())
-	ctx.Extra("field_alphabet", map[string]any{"values": len(alpha.FieldValues(ctx.Quick())), "value_forms": len(forms)})
+	forms := fieldForms(smoke(ctx))
+	ctx.Extra("field_alphabet", map[string]any{"values": len(alpha.FieldValues(smoke(ctx))), "value_forms": len(forms)})
 	subC09Forms.Run(ctx, len(forms)*len(unary), func(i int) feCase {
 		return feCase{Op: unary[i%len(unary)], A: inOf(&forms[i/len(unary)].E)}
 	})
